@@ -1173,6 +1173,72 @@ def alt_may_take(shape, a, b, o, pol):
     return res == pol
 
 
+# ---------------------------------------------------------------------------
+# stored-condition programs (executed under CPython): the result of a condition on x is kept in a local,
+# x is rebound on none / some / all paths (if, if-else, while, for, try), then the program branches on the
+# stored flag.  FunctionScope._add_single_constraint must apply the constraint only if every definition of x
+# that reaches the branch was current when the condition was evaluated.  Every object actually bound to x at
+# the recording points (all argument combinations are run) must belong to the value inferred there.
+
+REBIND_LITS = [("str", "hello"), ("none",), ("int", 0), ("tuple", (("int", 1),))]
+
+
+def stored_cases(rng, n):
+    out = []
+    for _ in range(n):
+        v = tuple(dict.fromkeys(rng.choice(SAFE_VALUES) for _ in range(rng.choice([2, 3, 3]))))
+        c = rng.choice(SAFE_LEAVES + [("truthy",)])
+        shape = rng.choice(["none", "if", "if", "ifelse", "while", "for", "try", "elifchain"])
+        out.append((v, c, shape, rng.choice(REBIND_LITS), rng.choice(REBIND_LITS), rng.choice(["if", "ifnot", "while"])))
+    return out
+
+
+def stored_src(i, v, c, shape, l1, l2, branch, executable):
+    ann = value_src(v)
+    e = "bool(x)" if c == ("truthy",) else cond_src(c, [], i)
+    a, b = lit_src(l1), lit_src(l2)
+    rebind = {
+        "none": "",
+        "if": f"    if flag:\n        x = {a}\n",
+        "ifelse": f"    if flag:\n        x = {a}\n    else:\n        x = {b}\n",
+        "while": f"    while n > 0:\n        n -= 1\n        x = {a}\n",
+        "for": f"    for _k in range(n):\n        x = {a}\n",
+        "try": f"    try:\n        if flag:\n            raise ValueError\n        x = {a}\n    except ValueError:\n        pass\n",
+        "elifchain": f"    if flag:\n        x = {a}\n    elif n > 0:\n        x = {b}\n",
+    }[shape]
+    r1 = f"_REC.append(({i}, 0, x))" if executable else "M1 = x"
+    r2 = f"_REC.append(({i}, 1, x))" if executable else "M2 = x"
+    if branch == "if":
+        tail = f"    if c_:\n        {r1}\n    else:\n        {r2}\n"
+    elif branch == "ifnot":
+        tail = f"    if not c_:\n        {r1}\n    else:\n        {r2}\n"
+    else:
+        tail = f"    while c_:\n        {r1}\n        break\n"
+    return f"def f_{i}(x: {ann}, flag: bool, n: int):\n    c_ = {e}\n" + rebind + tail
+
+
+def run_stored(cases, objs, pyobjs):
+    """[(case index, slot, object literal form, flag, n)] for every recorded (executed) binding"""
+    env = dict(vars(U))
+    exec("from typing import Any, Literal, Type, Union\n_REC = []\n" + "\n".join(stored_src(i, *cs, True) for i, cs in enumerate(cases)), env)
+    out = []
+    for i, cs in enumerate(cases):
+        fn = env[f"f_{i}"]
+        for lo, o in zip(objs, pyobjs):
+            if not py_member(o, cs[0]):
+                continue
+            for flag in (True, False):
+                for n in (0, 2):
+                    del env["_REC"][:]
+                    try:
+                        fn(o, flag, n)
+                    except Exception:
+                        continue
+                    for (ci, slot, bound) in env["_REC"]:
+                        out.append((ci, slot, bound, lo, flag, n))
+    return out
+
+
 def impl_e2e(srcs):
     """srcs: {case index: source}.  Returns {index: [pos, neg]} of decoded inferred values."""
     from pyanalyze.ast_annotator import annotate_code
@@ -1558,6 +1624,28 @@ def run(tier: str, replay: str | None = None):
         rep.violation({"kind": "failing-input", "route": "e2e-union-valued-condition", "input": {"value": v, "shape": shape, "a": a, "b": b}, "branch": pol, "object": lit_src(lo),
                        "source": alt_src(k, v, shape, a, b), "observed": out, "expected": "an object that can take the branch stays in the value of that branch"})
 
+    # 3c. stored-condition programs, executed under CPython
+    stored = stored_cases(random.Random(lib.seed() * 9173 + 11), 0 if replay else (150 if tier == "quick" else 2000))
+    stored_failures = []
+    try:
+        st_res = impl_e2e({k: stored_src(k, *sc, False) for k, sc in enumerate(stored)}) if stored else {}
+        for (k, slot, bound, lo, flag, n) in (run_stored(stored, objs, pyobjs) if stored else []):
+            outs = st_res.get(k)
+            if not outs or not isinstance(outs[slot], frozenset):
+                continue
+            if not py_member(bound, tuple(outs[slot])):
+                stored_failures.append((k, slot, repr(bound), lit_src(lo), flag, n, sorted(map(str, outs[slot]))))
+    except Exception as ex:
+        rep.violation({"kind": "broken-correspondence", "correspondence": "stored-condition programs (executed)", "detail": repr(ex)[-1500:]}, no_failing_input=True)
+    seen_sc = set()
+    for (k, slot, bound, arg, flag, n, out) in stored_failures:
+        if k in seen_sc or len(seen_sc) >= 3:
+            continue
+        seen_sc.add(k)
+        rep.violation({"kind": "failing-input", "route": "e2e-stored-condition", "input": {"stored": stored[k]}, "call": f"f_{k}({arg}, {flag}, {n})",
+                       "object_bound_at_the_recording_point": bound, "branch_slot": slot, "source": stored_src(k, *stored[k], False), "observed": out,
+                       "expected": "the object bound to x where the branch on the stored flag is taken belongs to the value inferred there"})
+
     _t["e2e"] = _time.time()
     # 4. model: join the evaluation thread started above
     if model_thread is not None:
@@ -1773,6 +1861,8 @@ def run(tier: str, replay: str | None = None):
         oracle_failures_attributed={k: True for k in known_hits},
         spec_vs_cpython_pairs=len(full_idx) * len(objs) if model is not None else 0,
         exhaustive=(tier == "thorough" and not replay),
+        stored_condition_programs=len(stored),
+        stored_condition_failures=len(stored_failures),
         union_valued_condition_cases=len(alts),
         union_valued_condition_failures=len(alt_failures),
         stage_seconds={"impl_api": round(_t["api"] - _t["start"], 1), "impl_e2e": round(_t["e2e"] - _t["api"], 1),
